@@ -562,6 +562,16 @@ async def _activity(env, ctx, spec):
                     ref = None
                 info['ends'].append((ctx.name, kind, ref, id(exc), env.sess.now(),
                                      exc_name(exc) if kind == 'failed' else kind))
+                if kind == 'failed' and info.get('left') is not None \
+                        and not isinstance(exc, SUPPRESSED):
+                    # C05: whatever fails in a block is reported by the block - a child whose
+                    # failure comes after the block has been left is reported by nobody
+                    env.sess.violation(
+                        'c05:child-failed-after-block-left',
+                        '%s (started in block %s) failed with %s at %r, after control had left '
+                        'the block at %r: the failure is in no Concurrent and aborts nothing' % (
+                            ctx.name, ctx.parent_key, exc_name(exc), env.sess.now(),
+                            info['left'][2]))
         raise
     env.log(ctx.name, 'finish')
     env.returned[ctx.name] = repr(spec.get('result'))
